@@ -26,6 +26,15 @@ func zzFreshObs(trace bool) string {
 	r.Handle("/z/{a}", &hnd{id: 1}, nil, "GET", "PUT")
 	_, w3 := zzServe(r, zzReq("OPTIONS", "/z/1"))
 	s += "|route=" + w3.h.Get("Allow")
+	// the same shapes other instances use, with and without capturing names
+	r.Handle("/a/{x:\\d+}y", &hnd{id: 2}, nil, "GET")
+	r.Handle("/b/{-x:\\d+}y", &hnd{id: 3}, nil, "GET")
+	o5, w5 := zzServe(r, zzReq("GET", "/a/5y"))
+	v5, _ := o5.params.Get("x")
+	o6, _ := zzServe(r, zzReq("GET", "/b/5y"))
+	s += "|re=" + string(rune('0'+w5.status/100)) + v5 + string(rune('0'+o6.params.Count()))
+	u, err := r.URL(true, "/a/{x:\\d+}y", map[string]string{"x": "7"})
+	s += "|url=" + u + string(rune('0'+map[bool]int{true: 1, false: 0}[err == nil]))
 	_, w4 := zzServe(r, zzReq("OPTIONS", "*"))
 	return s + "|star2=" + w4.h.Get("Allow")
 }
@@ -39,7 +48,7 @@ func ZZC07Seq(n int) {
 	hs := NewHosts(false)
 	g := NewGroup[*hnd](zzCall, &hnd{id: id404}, zzB405, zzBOpt)
 	for i := 0; i < n; i++ {
-		switch zzv.Choice("op", 8) {
+		switch zzv.Choice("op", 10) {
 		case 0:
 			zzGuard(func() { other.Handle("/a/{x}", &hnd{id: 1}, nil, "GET", "POST") })
 		case 1:
@@ -57,6 +66,13 @@ func ZZC07Seq(n int) {
 		case 7:
 			zzServe(other, zzReq("PUT", "/a/7"))
 			zzServe(otherT, zzReq("OPTIONS", "*"))
+		case 8:
+			zzGuard(func() { other.Handle("/a/{-x:\\d+}y", &hnd{id: 4}, nil, "GET") })
+			zzGuard(func() { otherT.Handle("/b/{x:\\d+}y", &hnd{id: 5}, nil, "GET") })
+			zzServe(other, zzReq("GET", "/a/1y"))
+		case 9:
+			CheckSyntax("/a/{-x:\\d+}y")
+			zzGuard(func() { hs.Add("{-x:\\d+}y", "{x:\\d+}z") })
 		}
 	}
 	zzv.Cover("foreign-activity")
@@ -66,6 +82,14 @@ func ZZC07Seq(n int) {
 // ZZC07Pool(n): consecutive requests reuse the pooled context; each sees exactly its own parameters. n = max path length.
 func ZZC07Pool(n int) {
 	r, _ := zzBuild(zzTables[0])
+	if zzv.Choice("group-first", 2) == 1 {
+		// a Group (its own release path for the pooled context) serves first
+		g := NewGroup[*hnd](zzCall, &hnd{id: id404}, zzB405, zzBOpt)
+		gr := g.New("g", NewPathVersion("v", "v1"))
+		gr.Handle("/q/{k}", &hnd{id: 7}, nil, "GET")
+		zzServe(g, zzReq("GET", "/v1/q/1"))
+		zzServe(g, zzReq("GET", "/nope"))
+	}
 	for i := 0; i < 2; i++ {
 		path := zzv.Bytes("p", n)
 		o, _ := zzServe(r, zzReq("GET", path))
